@@ -464,7 +464,12 @@ class HTTPConnectionPool(ConnectionPool, RequestMethods):
         self.num_requests += 1
 
         timeout_obj = self._get_timeout(timeout)
-        timeout_obj.start_connect()
+        if isinstance(timeout, Timeout) and timeout._start_connect is not None:
+            # The clock of this request is already running: it was started
+            # when the proxy tunnel for it was set up.
+            timeout_obj._start_connect = timeout._start_connect
+        else:
+            timeout_obj.start_connect()
         conn.timeout = Timeout.resolve_default_timeout(timeout_obj.connect_timeout)
 
         try:
@@ -779,6 +784,9 @@ class HTTPConnectionPool(ConnectionPool, RequestMethods):
             # Is this a closed/new connection that requires CONNECT tunnelling?
             if self.proxy is not None and http_tunnel_required and conn.is_closed:
                 try:
+                    # Connecting to the proxy and opening the tunnel count
+                    # against ``Timeout.total`` like any other connect phase.
+                    timeout_obj.start_connect()
                     self._prepare_proxy(conn)
                 except (BaseSSLError, OSError, SocketTimeout) as e:
                     self._raise_timeout(
